@@ -235,6 +235,17 @@ func (n *AbsfsNFS) UpdatePolicyOptions(newPolicy PolicyOptions) error {
 	return nil
 }
 
+// currentRateLimiter returns the rate limiter of the policy in force. While a
+// policy update is draining it returns nil: such requests are answered with
+// "retry later" by HandleCall and are not charged.
+func (n *AbsfsNFS) currentRateLimiter() *RateLimiter {
+	if !n.policyRWMu.TryRLock() {
+		return nil
+	}
+	defer n.policyRWMu.RUnlock()
+	return n.rateLimiter
+}
+
 // getStructuredLogger returns the current structured logger safely.
 // The returned Logger is safe to use after the call returns.
 func (n *AbsfsNFS) getStructuredLogger() Logger {
